@@ -374,6 +374,239 @@ example : ([1 / 2, 1 / 8, 1 / 8, 1 / 4] : List Rat).sum = 1 ∧
     wsum 3 ([1 / 2, 1 / 8, 1 / 8, 1 / 4] : List Rat) [[0, 0, 0], [2, 0, 0], [0, 4, 0], [0, 0, 8]] = [1 / 4, 1 / 2, 2] := by
   constructor <;> decide +kernel
 
+/-! ## barycentric interpolation on a `d`-simplex: the executed functions `baryN`, `linearSimplex`, `hullLoc`
+(driver ops `lin-simplex`, `simplex-loc`; the harness hands over the simplex SciPy's Delaunay triangulation found) -/
+
+/-- **Whatever `baryN` returns are barycentric coordinates**, in every dimension: one weight per vertex, all
+points of the right dimension, `Σ λ_i = 1` and `Σ λ_i v_i = p`. -/
+theorem baryN_sound (verts : List (List K)) (p lam : List K) (h : baryN verts p = some lam) :
+    lam.length = verts.length ∧ (∀ v ∈ verts, v.length = p.length) ∧ lam.sum = 1 ∧
+      wsum p.length lam verts = p := by
+  cases verts with
+  | nil => simp [baryN] at h
+  | cons v0 rest =>
+    simp only [baryN] at h
+    split at h
+    · simp at h
+    · rename_i hc
+      split at h
+      · simp at h
+      · split at h
+        · rename_i hok
+          simp only [Option.some.injEq] at h
+          subst h
+          simp only [Bool.or_eq_true, decide_eq_true_eq, Bool.not_eq_eq_eq_not, Bool.not_true, not_or, Bool.not_eq_false,
+            List.all_eq_true, beq_iff_eq] at hc
+          refine ⟨?_, hc.2, ?_, hok.2⟩
+          · simp [cramer, edges]
+          · simpa using hok.1
+        · simp at h
+
+/-- **The executed interpolant is exact on affine functions, every dimension `d`, every simplex**: whenever
+`linearSimplex` answers (it refuses only malformed / degenerate simplices), the answer for the samples of an affine
+function is the affine function at `p` — `barycentric_affine_exact` instantiated at the executed definition.
+`_partial`: for `d ≥ 4` it is not proved that the function *does* answer on every non-degenerate simplex (Cramer's rule for
+Laplace-expanded determinants of arbitrary size); for `d = 1, 2, 3` the unconditional statements follow below. -/
+theorem linearSimplex_affine_exact_partial (verts : List (List K)) (c0 : K) (c p : List K) (v : K)
+    (hc : c.length = p.length) (h : linearSimplex verts (verts.map (affine c0 c)) p = some v) :
+    v = affine c0 c p := by
+  simp only [linearSimplex, Option.map_eq_some_iff] at h
+  obtain ⟨lam, hl, rfl⟩ := h
+  obtain ⟨h1, h2, h3, h4⟩ := baryN_sound verts p lam hl
+  exact barycentric_affine_exact c0 c lam verts p h1 (fun w hw => by rw [h2 w hw, hc]) h3 (by rw [hc]; exact h4)
+
+/-- …and for `d = 1, 2, 3` it does answer on **every non-degenerate simplex** (`simplexDet ≠ 0`, the determinant the
+driver evaluates), at every point `p` (inside the simplex or not) -/
+theorem linearSimplex_affine_exact_d1 (a b x c0 k : K) (hdet : simplexDet [[a], [b]] ≠ 0) :
+    linearSimplex [[a], [b]] ([[a], [b]].map (affine c0 [k])) [x] = some (affine c0 [k] [x]) := by
+  rw [List.map, List.map, List.map, linearSimplex_eq_d1 a b _ _ x hdet]
+  rw [simplexDet_d1] at hdet
+  simp only [affine, dot, List.zipWith_cons_cons, List.zipWith_nil_right, List.sum_cons, List.sum_nil, Option.some.injEq]
+  field_simp
+  ring
+
+theorem linearSimplex_affine_exact_d2 (a1 a2 b1 b2 c1 c2 p1 p2 c0 k1 k2 : K)
+    (hdet : simplexDet [[a1, a2], [b1, b2], [c1, c2]] ≠ 0) :
+    linearSimplex [[a1, a2], [b1, b2], [c1, c2]] ([[a1, a2], [b1, b2], [c1, c2]].map (affine c0 [k1, k2])) [p1, p2]
+      = some (affine c0 [k1, k2] [p1, p2]) := by
+  rw [List.map, List.map, List.map, List.map, linearSimplex_eq_d2 _ _ _ _ _ _ _ _ _ p1 p2 hdet]
+  rw [simplexDet_d2] at hdet
+  simp only [affine, dot, List.zipWith_cons_cons, List.zipWith_nil_right, List.sum_cons, List.sum_nil, Option.some.injEq]
+  generalize hd : det2 (b1 - a1) (b2 - a2) (c1 - a1) (c2 - a2) = d at hdet ⊢
+  unfold det2 at hd ⊢
+  field_simp
+  rw [← hd]; ring
+
+theorem linearSimplex_affine_exact_d3 (a1 a2 a3 b1 b2 b3 c1 c2 c3 e1 e2 e3 p1 p2 p3 c0 k1 k2 k3 : K)
+    (hdet : simplexDet [[a1, a2, a3], [b1, b2, b3], [c1, c2, c3], [e1, e2, e3]] ≠ 0) :
+    linearSimplex [[a1, a2, a3], [b1, b2, b3], [c1, c2, c3], [e1, e2, e3]]
+        ([[a1, a2, a3], [b1, b2, b3], [c1, c2, c3], [e1, e2, e3]].map (affine c0 [k1, k2, k3])) [p1, p2, p3]
+      = some (affine c0 [k1, k2, k3] [p1, p2, p3]) := by
+  rw [List.map, List.map, List.map, List.map, List.map, linearSimplex_eq_d3 _ _ _ _ _ _ _ _ _ _ _ _ _ _ _ _ p1 p2 p3 hdet]
+  rw [simplexDet_d3] at hdet
+  simp only [affine, dot, List.zipWith_cons_cons, List.zipWith_nil_right, List.sum_cons, List.sum_nil, Option.some.injEq]
+  generalize hd : det3 (b1 - a1) (b2 - a2) (b3 - a3) (c1 - a1) (c2 - a2) (c3 - a3) (e1 - a1) (e2 - a2) (e3 - a3) = d at hdet ⊢
+  unfold det3 at hd ⊢
+  field_simp
+  rw [← hd]; ring
+
+/-- **The executed interpolant returns the vertex values at the vertices** (arbitrary values), `d = 1, 2, 3` -/
+theorem linearSimplex_hits_vertices_d1 (a b va vb : K) (hdet : simplexDet [[a], [b]] ≠ 0) :
+    linearSimplex [[a], [b]] [va, vb] [a] = some va ∧ linearSimplex [[a], [b]] [va, vb] [b] = some vb := by
+  rw [linearSimplex_eq_d1 a b va vb a hdet, linearSimplex_eq_d1 a b va vb b hdet]
+  rw [simplexDet_d1] at hdet
+  constructor
+  · simp
+  · simp only [Option.some.injEq]; field_simp; ring
+
+theorem linearSimplex_hits_vertices_d2 (a1 a2 b1 b2 c1 c2 va vb vc : K)
+    (hdet : simplexDet [[a1, a2], [b1, b2], [c1, c2]] ≠ 0) :
+    linearSimplex [[a1, a2], [b1, b2], [c1, c2]] [va, vb, vc] [a1, a2] = some va ∧
+    linearSimplex [[a1, a2], [b1, b2], [c1, c2]] [va, vb, vc] [b1, b2] = some vb ∧
+    linearSimplex [[a1, a2], [b1, b2], [c1, c2]] [va, vb, vc] [c1, c2] = some vc := by
+  rw [linearSimplex_eq_d2 _ _ _ _ _ _ va vb vc a1 a2 hdet, linearSimplex_eq_d2 _ _ _ _ _ _ va vb vc b1 b2 hdet,
+    linearSimplex_eq_d2 _ _ _ _ _ _ va vb vc c1 c2 hdet]
+  rw [simplexDet_d2] at hdet
+  generalize hd : det2 (b1 - a1) (b2 - a2) (c1 - a1) (c2 - a2) = d at hdet ⊢
+  unfold det2 at hd ⊢
+  refine ⟨?_, ?_, ?_⟩ <;>
+  · simp only [Option.some.injEq]
+    field_simp
+    rw [← hd]; ring
+
+theorem linearSimplex_hits_vertices_d3 (a1 a2 a3 b1 b2 b3 c1 c2 c3 e1 e2 e3 va vb vc ve : K)
+    (hdet : simplexDet [[a1, a2, a3], [b1, b2, b3], [c1, c2, c3], [e1, e2, e3]] ≠ 0) :
+    linearSimplex [[a1, a2, a3], [b1, b2, b3], [c1, c2, c3], [e1, e2, e3]] [va, vb, vc, ve] [a1, a2, a3] = some va ∧
+    linearSimplex [[a1, a2, a3], [b1, b2, b3], [c1, c2, c3], [e1, e2, e3]] [va, vb, vc, ve] [b1, b2, b3] = some vb ∧
+    linearSimplex [[a1, a2, a3], [b1, b2, b3], [c1, c2, c3], [e1, e2, e3]] [va, vb, vc, ve] [c1, c2, c3] = some vc ∧
+    linearSimplex [[a1, a2, a3], [b1, b2, b3], [c1, c2, c3], [e1, e2, e3]] [va, vb, vc, ve] [e1, e2, e3] = some ve := by
+  rw [linearSimplex_eq_d3 _ _ _ _ _ _ _ _ _ _ _ _ va vb vc ve a1 a2 a3 hdet,
+    linearSimplex_eq_d3 _ _ _ _ _ _ _ _ _ _ _ _ va vb vc ve b1 b2 b3 hdet,
+    linearSimplex_eq_d3 _ _ _ _ _ _ _ _ _ _ _ _ va vb vc ve c1 c2 c3 hdet,
+    linearSimplex_eq_d3 _ _ _ _ _ _ _ _ _ _ _ _ va vb vc ve e1 e2 e3 hdet]
+  rw [simplexDet_d3] at hdet
+  generalize hd : det3 (b1 - a1) (b2 - a2) (b3 - a3) (c1 - a1) (c2 - a2) (c3 - a3) (e1 - a1) (e2 - a2) (e3 - a3) = d at hdet ⊢
+  unfold det3 at hd ⊢
+  refine ⟨?_, ?_, ?_, ?_⟩ <;>
+  · simp only [Option.some.injEq]
+    field_simp
+    rw [← hd]; ring
+
+/-- the 2-D model of the earlier rounds (`bary2` / `linearTriangle`, op `lin-tri`) is the `d = 2` instance of the
+general executed function -/
+theorem linearTriangle_eq_linearSimplex (a b c p : K × K) (va vb vc : K) :
+    linearTriangle a b c va vb vc p = linearSimplex [[a.1, a.2], [b.1, b.2], [c.1, c.2]] [va, vb, vc] [p.1, p.2] := by
+  by_cases hdet : (b.1 - a.1) * (c.2 - a.2) - (c.1 - a.1) * (b.2 - a.2) = 0
+  · have h0 : simplexDet [[a.1, a.2], [b.1, b.2], [c.1, c.2]] = 0 := by
+      rw [simplexDet_d2, det2, ← hdet]; ring
+    have : baryN [[a.1, a.2], [b.1, b.2], [c.1, c.2]] [p.1, p.2] = none := by
+      simp only [simplexDet] at h0
+      simp [baryN, h0]
+    simp [linearTriangle, bary2, hdet, linearSimplex, this]
+  · have h0 : simplexDet [[a.1, a.2], [b.1, b.2], [c.1, c.2]] ≠ 0 := by
+      rw [simplexDet_d2, det2]; intro h; exact hdet (by rw [← h]; ring)
+    rw [linearSimplex_eq_d2 _ _ _ _ _ _ va vb vc p.1 p.2 h0]
+    simp only [linearTriangle, bary2, hdet, if_false, Option.map_some, combine, dot,
+      List.zipWith_cons_cons, List.zipWith_nil_right, List.sum_cons, List.sum_nil, Nat.cast_one, Option.some.injEq, det2]
+    generalize hd : (b.1 - a.1) * (c.2 - a.2) - (c.1 - a.1) * (b.2 - a.2) = d at hdet ⊢
+    have hd' : (b.1 - a.1) * (c.2 - a.2) - (b.2 - a.2) * (c.1 - a.1) = d := by rw [← hd]; ring
+    rw [hd']
+    field_simp
+    ring
+
+/-- **The exact location test** the known finding `unstructured-linear-hull-boundary` is keyed on: `hullLoc` answers
+`boundary` exactly when all barycentric coordinates are `≥ 0` (the point is in the closed simplex) and all vertices
+that carry weight belong to one facet of the convex hull (so the point is a convex combination of vertices of that
+facet: it lies in the facet — `baryN_zero_on_facet` drops the weightless vertices one at a time). -/
+theorem hullLoc_boundary_iff (lam : List K) (ids : List Nat) (facets : List (List Nat)) :
+    hullLoc lam ids facets = Loc.boundary ↔
+      (∀ l ∈ lam, 0 ≤ l) ∧ ∃ G ∈ facets, ∀ li ∈ List.zip lam ids, li.1 ≠ 0 → li.2 ∈ G := by
+  unfold hullLoc inSimplex
+  by_cases hin : (lam.all fun l => decide (0 ≤ l)) = true
+  · have hall : ∀ l ∈ lam, 0 ≤ l := by simpa using hin
+    simp only [hin, Bool.not_true, Bool.false_eq_true, if_false]
+    by_cases hb : (facets.any fun G => (List.zip lam ids).all fun li => decide (li.1 = 0) || G.contains li.2) = true
+    · simp only [hb, if_true, true_iff]
+      refine ⟨hall, ?_⟩
+      obtain ⟨G, hG, hp⟩ := List.any_eq_true.mp hb
+      refine ⟨G, hG, fun li hli hne => ?_⟩
+      have := List.all_eq_true.mp hp li hli
+      simp only [Bool.or_eq_true, decide_eq_true_eq, List.contains_iff_mem] at this
+      exact this.resolve_left hne
+    · simp only [hb, Bool.false_eq_true, if_false]
+      constructor
+      · intro h; exact absurd h (by decide)
+      · rintro ⟨_, G, hG, hp⟩
+        exfalso
+        apply hb
+        refine List.any_eq_true.mpr ⟨G, hG, List.all_eq_true.mpr fun li hli => ?_⟩
+        simp only [Bool.or_eq_true, decide_eq_true_eq, List.contains_iff_mem]
+        by_cases h0 : li.1 = 0
+        · exact Or.inl h0
+        · exact Or.inr (hp li hli h0)
+  · simp only [hin, Bool.not_false, if_true]
+    constructor
+    · intro h; exact absurd h (by decide)
+    · rintro ⟨hall, _⟩
+      exact absurd (by simpa using hall) hin
+
+/-- a point strictly inside the simplex (all `λ > 0`) of a triangulation in which no hull facet contains all the
+vertices of the simplex is `inside`: a fill value there is a plain violation, never the known finding -/
+theorem hullLoc_inside_of_pos (lam : List K) (ids : List Nat) (facets : List (List Nat))
+    (hpos : ∀ l ∈ lam, 0 < l) (hf : ∀ G ∈ facets, ∃ li ∈ List.zip lam ids, li.2 ∉ G) :
+    hullLoc lam ids facets = Loc.inside := by
+  have hnb : hullLoc lam ids facets ≠ Loc.boundary := by
+    rw [Ne, hullLoc_boundary_iff]
+    rintro ⟨_, G, hG, hp⟩
+    obtain ⟨li, hli, hn⟩ := hf G hG
+    exact hn (hp li hli (ne_of_gt (hpos li.1 (List.of_mem_zip hli).1)))
+  have hin : (lam.all fun l => decide (0 ≤ l)) = true := by
+    simp only [List.all_eq_true, decide_eq_true_eq]; exact fun l hl => le_of_lt (hpos l hl)
+  unfold hullLoc inSimplex at hnb ⊢
+  simp only [hin, Bool.not_true, Bool.false_eq_true, if_false] at hnb ⊢
+  by_cases hb : (facets.any fun G => (List.zip lam ids).all fun li => decide (li.1 = 0) || G.contains li.2) = true
+  · rw [if_pos hb] at hnb; exact absurd rfl hnb
+  · rw [if_neg hb]
+
+/-- …and a point that `baryN` puts on the facet opposite vertex `i` (`λ_i = 0`) **is** a combination of the other
+`d` vertices with the remaining weights (which still add up to one): it lies on that facet's plane; with all
+`λ ≥ 0` it lies in the facet itself. -/
+theorem baryN_zero_on_facet (verts : List (List K)) (p lam : List K) (i : Nat)
+    (h : baryN verts p = some lam) (hi : lam[i]? = some 0) :
+    (lam.eraseIdx i).sum = 1 ∧ wsum p.length (lam.eraseIdx i) (verts.eraseIdx i) = p := by
+  obtain ⟨h1, h2, h3, h4⟩ := baryN_sound verts p lam h
+  exact ⟨by rw [sum_eraseIdx_zero lam i hi, h3], by rw [wsum_eraseIdx_zero p.length lam verts i hi h2 h1, h4]⟩
+
+/-- the hypotheses are satisfiable, and the executed functions compute: a tetrahedron (d = 3), its vertex, a point on a
+hull facet, a point inside, a point outside; a degenerate simplex is refused -/
+example : simplexDet [[(0 : Rat), 0, 0], [2, 0, 0], [0, 4, 0], [0, 0, 8]] ≠ 0 ∧
+    simplexDet [[(0 : Rat)], [3]] ≠ 0 ∧ simplexDet [[(0 : Rat), 0], [1, 0], [0, 1]] ≠ 0 := by
+  refine ⟨?_, ?_, ?_⟩ <;> decide +kernel
+
+example : baryN [[(0 : Rat), 0, 0], [2, 0, 0], [0, 4, 0], [0, 0, 8]] [1 / 4, 1 / 2, 2] = some [1 / 2, 1 / 8, 1 / 8, 1 / 4] ∧
+    linearSimplex [[(0 : Rat), 0, 0], [2, 0, 0], [0, 4, 0], [0, 0, 8]] [1, 2, 3, 4] [1 / 4, 1 / 2, 2] = some (17 / 8) ∧
+    hullLoc ([1 / 2, 1 / 8, 1 / 8, 1 / 4] : List Rat) [5, 6, 7, 8] [[5, 6, 7], [6, 7, 8]] = Loc.inside ∧
+    (baryN [[(0 : Rat), 0, 0], [2, 0, 0], [0, 4, 0], [0, 0, 8]] [1, 2, 0]).map (hullLoc · [5, 6, 7, 8] [[5, 6, 8], [5, 7, 8]]) = some Loc.inside ∧
+    (baryN [[(0 : Rat), 0, 0], [2, 0, 0], [0, 4, 0], [0, 0, 8]] [1, 2, 0]).map (hullLoc · [5, 6, 7, 8] [[5, 6, 8], [7, 6, 9]]) = some Loc.boundary ∧
+    (baryN [[(0 : Rat), 0, 0], [2, 0, 0], [0, 4, 0], [0, 0, 8]] [2, 0, 0]).map (hullLoc · [5, 6, 7, 8] [[1, 2, 6]]) = some Loc.boundary ∧
+    (baryN [[(0 : Rat), 0, 0], [2, 0, 0], [0, 4, 0], [0, 0, 8]] [3, 0, 0]).map (hullLoc · [5, 6, 7, 8] [[5, 6, 7]]) = some Loc.outside ∧
+    baryN [[(0 : Rat), 0], [1, 1], [2, 2]] [1, 0] = none := by
+  refine ⟨?_, ?_, ?_, ?_, ?_, ?_, ?_, ?_⟩ <;> decide +kernel
+
+/-- `hpos`, `hf` of `hullLoc_inside_of_pos` -/
+example : (∀ l ∈ ([1 / 2, 1 / 4, 1 / 4] : List Rat), 0 < l) ∧
+    ∀ G ∈ [[1, 2], [2, 7]], ∃ li ∈ List.zip ([1 / 2, 1 / 4, 1 / 4] : List Rat) [1, 2, 3], li.2 ∉ G := by
+  constructor
+  · decide +kernel
+  · intro G hG
+    simp only [List.mem_cons, List.not_mem_nil, or_false] at hG
+    rcases hG with rfl | rfl
+    · exact ⟨(1 / 4, 3), by decide +kernel, by decide⟩
+    · exact ⟨(1 / 2, 1), by decide +kernel, by decide⟩
+
+example : ∃ lam : List Rat, baryN [[(0 : Rat), 0], [1, 0], [0, 1]] [1 / 2, 1 / 2] = some lam ∧ lam[0]? = some 0 :=
+  ⟨[0, 1 / 2, 1 / 2], by decide +kernel, by decide +kernel⟩
+
 /-! ## nearest neighbour -/
 
 /-- **Nearest neighbour returns a minimiser of the squared distance** (scattered points, any
@@ -784,6 +1017,35 @@ theorem bins_mean_conserved (ss dims : List Nat) (hl : ss.length = dims.length) 
   push_cast
   rw [div_div, mul_comm]
 
+/-- per-axis factors on a non-regular grid (driver op `binws`): the weighted mean conserves the weighted total,
+for weights of any size (the only hypothesis on the weights is that no bin has total weight zero: there is no
+threshold below which weights count as equal — the seeded `np.allclose` shortcut violates this at small units). -/
+theorem bins_weighted_mean_conserved (ss dims : List Nat) (hl : ss.length = dims.length) (v w : List K)
+    (hv : v.length = fineSizes ss dims) (hw : w.length = fineSizes ss dims)
+    (hpos : ∀ x ∈ binNDs ss dims w, x ≠ 0) :
+    (List.zipWith (· * ·) (binWMeans ss dims v w) (binNDs ss dims w)).sum
+      = (List.zipWith (· * ·) v w).sum := by
+  have hvw : (List.zipWith (· * ·) v w).length = fineSizes ss dims := by simp [hv, hw]
+  unfold binWMeans
+  rw [zipWith_div_mul_cancel _ _ hpos (by rw [binNDs_length _ _ hl _ hvw, binNDs_length _ _ hl _ hw]),
+    binNDs_sum _ _ hl _ hvw]
+
+example : ([2, 1] : List Nat).length = ([1, 2] : List Nat).length ∧
+    (∀ x ∈ binNDs [2, 1] [1, 2] ([1, 2, 1, 3] : List Rat), x ≠ 0) := by
+  constructor <;> decide +kernel
+
+/-- **The weighted mean does not depend on the unit of the coordinates**: multiplying all weights by a common factor
+`c ≠ 0` (pixel areas in m² instead of in units of (10 µm)²: `c = S^d`) leaves every binned value unchanged — for
+weights of any size, every shape, every per-axis factor.  (The seeded `np.allclose(weights, weights[0])` shortcut,
+whose absolute tolerance makes the result depend on `c`, contradicts this theorem.) -/
+theorem bins_weighted_mean_unit_invariant (ss dims : List Nat) (v w : List K) (c : K) (hc : c ≠ 0) :
+    binWMeans ss dims v (w.map (c * ·)) = binWMeans ss dims v w := by
+  unfold binWMeans
+  rw [zipWith_mul_smul, binNDs_smul, binNDs_smul, zipWith_div_smul c hc]
+
+example : binWMeans [2] [2] ([1, 2, 3, 5] : List Rat) ([1, 3, 1, 1].map ((1 / 1024 : Rat) * ·)) = [7 / 4, 4] := by
+  decide +kernel
+
 /-- the binned field has one value per coarse pixel -/
 theorem bins_length (ss dims : List Nat) (hl : ss.length = dims.length) (v : List K)
     (h : v.length = fineSizes ss dims) : (binNDs ss dims v).length = size dims :=
@@ -917,6 +1179,96 @@ theorem dithers1_sum_zero [CharZero K] (n : Nat) (hn : 0 < n) : (dithers1 n : Li
   push_cast
   field_simp
   ring
+
+/-! ### the dither lists themselves (`make_uniform_grid(oversampling, 1)`): length, count, symmetry, range -/
+
+/-- one dither per sub-pixel along an axis -/
+theorem dithers1_length (n : Nat) : (dithers1 n : List K).length = n := by simp [dithers1]
+
+/-- **the number of dithered evaluations is `Π n_k`** — the divisor `len(dithers)` of `statistic='mean'` and the
+factor by which `'sum'` exceeds the mean, for every per-axis oversampling -/
+theorem dithers_count (ns : List Nat) :
+    (tensorPts (ns.map dithers1) : List (List K)).length = ns.foldr (· * ·) 1 := by
+  rw [tensorPts_len, List.map_map]
+  have : (List.length ∘ (dithers1 : Nat → List K)) = id := by
+    funext n; simp [dithers1_length]
+  rw [this, List.map_id]; rfl
+
+/-- the `j`-th dither along an axis oversampled `n` times -/
+theorem dithers1_getElem? (n j : Nat) (hj : j < n) :
+    (dithers1 n : List K)[j]? = some (((2 * j + 1 : Nat) : K) / ((2 * n : Nat) : K) - ((1 : Nat) : K) / ((2 : Nat) : K)) := by
+  simp [dithers1, List.getElem?_map, List.getElem?_range hj]
+
+/-- **the dither offsets are symmetric**: the `j`-th from the left is minus the `j`-th from the right, for every
+oversampling factor (so they add up to zero, `dithers1_sum_zero`, and an odd factor has the offset 0 in the middle) -/
+theorem dithers1_symmetric [CharZero K] (n j : Nat) (hj : j < n) (d : K) (hd : (dithers1 n : List K)[j]? = some d) :
+    (dithers1 n : List K)[n - 1 - j]? = some (-d) := by
+  rw [dithers1_getElem? n j hj] at hd
+  rw [dithers1_getElem? n (n - 1 - j) (by omega)]
+  simp only [Option.some.injEq] at hd ⊢
+  subst hd
+  have hn : ((2 * n : Nat) : K) ≠ 0 := by
+    have : 2 * n ≠ 0 := by omega
+    exact_mod_cast this
+  have hsum : ((2 * (n - 1 - j) + 1 : Nat) : K) + ((2 * j + 1 : Nat) : K) = ((2 * n : Nat) : K) := by
+    have : 2 * (n - 1 - j) + 1 + (2 * j + 1) = 2 * n := by omega
+    exact_mod_cast this
+  have h2 : (((2 : Nat) : K)) ≠ 0 := by norm_num
+  field_simp
+  have := hsum
+  push_cast at this ⊢
+  linarith
+
+/-- **every dither stays inside its pixel**: `-1/2 < d < 1/2` -/
+theorem dithers1_range (n : Nat) (d : K) (hd : d ∈ (dithers1 n : List K)) : -(1 / 2 : K) < d ∧ d < 1 / 2 := by
+  simp only [dithers1, List.mem_map, List.mem_range] at hd
+  obtain ⟨j, hj, rfl⟩ := hd
+  have hn : (0 : K) < ((2 * n : Nat) : K) := by
+    have : 0 < 2 * n := by omega
+    exact_mod_cast this
+  have h1 : (0 : K) < ((2 * j + 1 : Nat) : K) / ((2 * n : Nat) : K) := div_pos (by exact_mod_cast Nat.succ_pos _) hn
+  have h2 : ((2 * j + 1 : Nat) : K) / ((2 * n : Nat) : K) < 1 := by
+    rw [div_lt_one hn]
+    have : 2 * j + 1 < 2 * n := by omega
+    exact_mod_cast this
+  constructor <;> push_cast at h1 h2 ⊢ <;> linarith
+
+example : (dithers1 3 : List Rat) = [-1 / 3, 0, 1 / 3] ∧ (dithers1 2 : List Rat) = [-1 / 4, 1 / 4] ∧
+    (tensorPts ([2, 3].map dithers1) : List (List Rat)).length = 6 := by
+  refine ⟨?_, ?_, ?_⟩ <;> decide +kernel
+
+/-- **`make_supersampled_grid` puts its points exactly at the dithered positions**: along every axis of a regular
+grid the `dim·n` fine coordinates are, pixel by pixel, the coarse coordinate `zero + i·delta` plus `delta` times the
+dither offsets `dithers1 n` — for every oversampling factor `n > 0`.  (So evaluating a generator on the supersampled
+grid and binning it back is the same set of evaluations as the dithered sub-grids of `evaluate_supersampled`.) -/
+theorem superAxis_eq_dithered [CharZero K] (zero delta : K) (dim n : Nat) (hn : 0 < n) :
+    superAxis zero delta dim n =
+      (List.range dim).flatMap fun (i : Nat) => (dithers1 n : List K).map fun d => (zero + (i : K) * delta) + d * delta := by
+  have hn' : (n : K) ≠ 0 := by exact_mod_cast (Nat.pos_iff_ne_zero.mp hn)
+  have key : ∀ i : Nat, ((List.range n).map fun j => i * n + j).map (fun (k : Nat) =>
+        (zero - delta / ((2 : Nat) : K) + delta / (n : K) / ((2 : Nat) : K)) + (k : K) * (delta / (n : K)))
+      = (dithers1 n : List K).map fun d => (zero + (i : K) * delta) + d * delta := by
+    intro i
+    unfold dithers1
+    rw [List.map_map, List.map_map]
+    apply List.map_congr_left
+    intro j _
+    simp only [Function.comp]
+    push_cast
+    field_simp
+    ring
+  unfold superAxis
+  rw [range_mul_eq_flatMap, List.map_flatMap]
+  simp only [key]
+
+/-- the supersampled axis has `dim·n` points, and the mean of the `n` sub-pixel coordinates of a pixel is the pixel's
+own coordinate (binning the supersampled grid gives the grid back) -/
+theorem superAxis_length (zero delta : K) (dim n : Nat) : (superAxis zero delta dim n).length = dim * n := by
+  simp [superAxis]
+
+example : superAxis (0 : Rat) 1 2 2 = [-1 / 4, 1 / 4, 3 / 4, 5 / 4] ∧
+    superAxis (1 : Rat) (-3) 1 3 = [2, 1, 0] := by
+  constructor <;> decide +kernel
 
 /-- hcipy's dither set — the tensor product of the per-axis uniform dithers, any oversampling
 factors — has zero mean -/
